@@ -3,7 +3,7 @@ Theorems: coq/Props/C01.v.  Correspondence S4: answer sets of the real pipeline 
 run vs Oracle.tsm_enum (extracted) on the same program: exhaustive one-rule programs (head form x body literal form x
 part, in two contexts) plus random 1-4 rule programs."""
 import json
-import gen, s4, lang
+import gen, s4, lang, trstruct
 
 PROP_FILE = 'Props/C01.v'
 GROUPS = ['imain']
@@ -28,7 +28,20 @@ def run(ctx):
     maxbits = 12 if ctx.quick else 13
     progs = programs(ctx)
     recs = s4.compare(ctx, [p for _, p in progs], H, maxbits)
-    return summarize(ctx, progs, recs, H, maxbits, 'C01')
+    res = summarize(ctx, progs, recs, H, maxbits, 'C01')
+    # structural correspondence: the rewritten rules of telingo's transformer against Model/CoreRun.transform, rule by rule
+    sp = [p for _, p in progs if trstruct.in_fragment(p)]
+    srecs = trstruct.compare(ctx, sp)
+    sstat = {}
+    for p, r in zip(sp, srecs):
+        sstat[r['status']] = sstat.get(r['status'], 0) + 1
+        if r['status'] != 'agree':
+            res['counterexamples'].append({'key': 'c01:transform:' + r['program'].replace('\n', ' '), 'what': 'transform() and Model/CoreRun.transform differ: %s' % r.get('what'),
+                                           'input': {'transform_rules': p, 'program': r['program']}})
+    res['coverage']['evaluations'] += len(srecs)
+    res['coverage']['transform_structure_status'] = sstat
+    res['coverage']['rule'] += '; structure: the rewritten statements of transformers.transform for the %d programs inside the fragment of Model/CoreRun.v compared rule by rule (part, head, signed body literals with time terms, trailer) with the extracted model' % len(srecs)
+    return res
 
 
 def summarize(ctx, progs, recs, H, maxbits, prop, nontrivial_extra=None):
@@ -68,5 +81,7 @@ def summarize(ctx, progs, recs, H, maxbits, prop, nontrivial_extra=None):
 
 def replay(ctx, payload):
     inp = payload['input']
+    if 'transform_rules' in inp:
+        return trstruct.compare(ctx, [inp['transform_rules']])[0]['status'] != 'agree'
     r = s4.compare(ctx, [inp['rules']], inp.get('H', 3), inp.get('maxbits', 12), default_config=bool(inp.get('default_config')))[0]
     return r['status'] in ('differ', 'implerror')
